@@ -45,16 +45,19 @@ static const char *const impl_names[3] = { "hashtable", "skiplist", "trie" };
 
 // generator tokens understood in SIMK_AVOID, and the cfg switch each one sets
 static const struct { const char *token, *cfg; } avoid_tokens[] = {
-	// hashtable, trie: a key removed while an iterator is positioned on it stays linked and findable until that
+	// hashtable / trie: a key removed while an iterator is positioned on it stays linked and findable until that
 	// iterator moves on; do not rm / put such a key and do not start a new iteration while one exists
-	{ "touch_key_removed_under_iter", "av_ghost" },
+	{ "hashtable_touch_key_removed_under_iter", "av_ghost_h" },
+	{ "trie_touch_key_removed_under_iter", "av_ghost_t" },
 	// hashtable: iter_free does not drop the iterator's reference; after abandoning an iterator positioned on a
 	// key, do not rm that key (and do not abandon an iterator positioned on an already removed key)
 	{ "hashtable_abandon_then_rm", "av_stuck" },
 	// skiplist: do not rm the last remaining key while an iterator is positioned on it or on another removed key
 	{ "skiplist_rm_last_key_under_iter", "av_sl_last" },
-	// skiplist: while an iterator is positioned on a removed key, do not rm anything
-	{ "skiplist_rm_after_rm_under_iter", "av_sl" },
+	// skiplist: a node removed under an iterator shares its forward array with a live "owner" node (its predecessor
+	// at the time, later whoever takes that array over); do not rm a key when that frees the array such a node
+	// still needs (the owner itself without hand-over, or the owner's successor with hand-over)
+	{ "skiplist_rm_frees_shared_forward", "av_sl" },
 	// trie: rm of an absent key that is a prefix of (or equal to) a key that was ever inserted
 	{ "trie_rm_absent_prefix", "av_trm" },
 	// trie: put of a new key that forces a split at or above the node an iterator is positioned on
@@ -271,7 +274,8 @@ struct Run {
 	qb_map_t *map;
 	int impl, nkeys;
 	int uni[MAXM];           // universe index -> master index
-	uint64_t present, ever_put, stuck;
+	uint64_t present, ever_put, stuck, leaked;
+	int sl_owner[MAXW + 1];  // skiplist bookkeeping for av_sl: owner key (-1 = header) of the array a removed, still referenced node uses
 	uint32_t val[MAXM];      // serial of the current value of a present key
 	uint32_t nserial;
 	Walker w[MAXW + 1];
@@ -364,7 +368,7 @@ static void do_put(int k, int copy, size_t opi)
 	bool was = (R.present >> k) & 1;
 	uint64_t ghosts = ghost_mask();
 	if (ghosts & bit(k)) {
-		if (R.av_ghost && R.impl != IMPL_SKIP) { avoided(1); return; }
+		if (R.av_ghost) { avoided(1); return; }
 		count(c_put_removed_parked);
 	}
 	if (R.av_tsplit && R.impl == IMPL_TRIE && !was) {
@@ -403,11 +407,24 @@ static bool do_rm(int k, size_t opi)
 	bool was = (R.present >> k) & 1;
 	uint64_t ghosts = ghost_mask();
 	if (ghosts & bit(k)) {
-		if (R.av_ghost && R.impl != IMPL_SKIP) { avoided(3); return false; }
+		if (R.av_ghost) { avoided(3); return false; }
 		count(c_rm_removed_parked);
 	}
 	if (R.av_stuck && R.impl == IMPL_HASH && (R.stuck & bit(k))) { avoided(4); return false; }
-	if (R.av_sl && R.impl == IMPL_SKIP && ghosts) { avoided(5); return false; }
+	int sl_pred = -1;
+	bool sl_takeover = false;
+	if (R.impl == IMPL_SKIP && was) {
+		// mirror of skiplist_rm's hand-over decision, used only to steer around a known defect
+		for (int j = 0; j < R.nkeys; j++)
+			if (j != k && ((R.present >> j) & 1) && strcmp(kstr(j), kstr(k)) < 0 && (sl_pred < 0 || strcmp(kstr(j), kstr(sl_pred)) > 0)) sl_pred = j;
+		bool referenced = (R.leaked >> k) & 1;
+		for (int n = 1; n <= MAXW; n++) if (walking(R.w[n]) && R.w[n].parked == k && !R.w[n].parked_removed) referenced = true;
+		sl_takeover = referenced || sl_pred < 0;
+		bool danger = false;
+		for (int n = 1; n <= MAXW; n++)
+			if (walking(R.w[n]) && R.w[n].parked >= 0 && R.w[n].parked_removed && R.sl_owner[n] == (sl_takeover ? sl_pred : k)) danger = true;
+		if (R.av_sl && danger) { avoided(5); return false; }
+	}
 	if (R.av_sl_last && R.impl == IMPL_SKIP && was && R.present == bit(k)) {
 		bool parked_here = false;
 		for (int n = 1; n <= MAXW; n++) if (walking(R.w[n]) && R.w[n].parked == k) parked_here = true;
@@ -438,8 +455,10 @@ static bool do_rm(int k, size_t opi)
 			if (!walking(w)) continue;
 			w.k_all &= ~bit(k);
 			w.mut = true;
-			if (w.parked == k) w.parked_removed = true;
+			if (R.impl == IMPL_SKIP && sl_takeover && w.parked >= 0 && w.parked_removed && R.sl_owner[n] == k) R.sl_owner[n] = sl_pred;
+			if (w.parked == k && !w.parked_removed) { w.parked_removed = true; R.sl_owner[n] = sl_pred; }
 		}
+		R.leaked &= ~bit(k);
 		if (walk && R.present == 0) count(c_all_removed_open);
 	}
 	ev(202, k, was, r);
@@ -540,6 +559,7 @@ static void walker_free(Walker &w)
 	if (walking(w)) {
 		count(c_abandon);
 		if (R.impl == IMPL_HASH && w.parked >= 0) R.stuck |= bit(w.parked);
+		if (w.parked >= 0 && !w.parked_removed) R.leaked |= bit(w.parked);
 	}
 	TRACE("   walker %d iter_free%s", (int)(&w - R.w), walking(w) ? " (abandoned)" : "");
 	qb_map_iter_free(w.it);
@@ -665,7 +685,7 @@ static void run(const char *, const RunSpec &spec)
 	if (R.nkeys < 1) R.nkeys = 1;
 	if (R.nkeys > 40) R.nkeys = 40;
 	if ((size_t)R.nkeys > g_master.size()) R.nkeys = (int)g_master.size();
-	R.av_ghost = p.get("av_ghost") != 0; R.av_stuck = p.get("av_stuck") != 0; R.av_sl = p.get("av_sl") != 0; R.av_sl_last = p.get("av_sl_last") != 0;
+	R.av_ghost = (R.impl == IMPL_HASH && p.get("av_ghost_h") != 0) || (R.impl == IMPL_TRIE && p.get("av_ghost_t") != 0); R.av_stuck = p.get("av_stuck") != 0; R.av_sl = p.get("av_sl") != 0; R.av_sl_last = p.get("av_sl_last") != 0;
 	R.av_trm = p.get("av_trm") != 0; R.av_tsplit = p.get("av_tsplit") != 0;
 	count(c_runs[R.impl]);
 	const char *in = impl_names[R.impl];
@@ -780,7 +800,7 @@ static void run(const char *, const RunSpec &spec)
 			break;
 		case K_ITER_CREATE: {
 			if (wi < 1 || wi >= MAXW || R.w[wi].open) { skip(4); break; }
-			if (R.av_ghost && R.impl != IMPL_SKIP && ghost_mask()) { avoided(7); break; }
+			if (R.av_ghost && ghost_mask()) { avoided(7); break; }
 			Walker &w = R.w[wi];
 			uint64_t all = R.nkeys >= 64 ? ~0ULL : (bit(R.nkeys) - 1);
 			uint64_t scope = all;
@@ -822,7 +842,7 @@ static void run(const char *, const RunSpec &spec)
 			break; }
 		case K_FOREACH: {
 			if (wi < 1 || wi >= MAXW || R.w[wi].open) { skip(7); break; }
-			if (R.av_ghost && R.impl != IMPL_SKIP && ghost_mask()) { avoided(9); break; }
+			if (R.av_ghost && ghost_mask()) { avoided(9); break; }
 			Walker &w = R.w[MAXW];
 			uint64_t all = R.nkeys >= 64 ? ~0ULL : (bit(R.nkeys) - 1);
 			walker_begin(w, all);
@@ -840,6 +860,7 @@ static void run(const char *, const RunSpec &spec)
 					ev(212, (int64_t)w.nret);
 					// map.c frees its iterator while it is positioned on the current key
 					if (R.impl == IMPL_HASH && w.parked >= 0) R.stuck |= bit(w.parked);
+					if (w.parked >= 0 && !w.parked_removed) R.leaked |= bit(w.parked);
 				} else {
 					judge_completed(w, i, "qb_map_foreach");
 				}
